@@ -638,12 +638,14 @@ def run(ctx: Ctx) -> int:
     ctx.need(len(arms) == 1, "_apply_actions: `if action is None or isinstance(action, _ActionSubCommands):` arm")
     arm = arms[0]
     raises_ = [r for s in arm.body for r in ast.walk(s) if isinstance(r, ast.Raise)]
+    # the local that holds the action, by role: the one tested with isinstance(.., _ActionSubCommands) in the arm's test
+    act_names = {c.args[0].id for c in ast.walk(arm.test) if isinstance(c, ast.Call) and call_leaf(c) == "isinstance" and len(c.args) == 2 and isinstance(c.args[0], ast.Name) and "_ActionSubCommands" in ast.unparse(c.args[1])}
     good = []
     for r in raises_:
         at = guard_atoms(r, stop=arm)
         at = [(t, p) for t, p in at if t is not arm.test]
         neg_ns = [1 for t, p in at if not p and isinstance(t, ast.Call) and call_leaf(t) == "isinstance" and ast.unparse(t.args[1]) == "Namespace"]
-        other = [ast.unparse(t) for t, p in at if not (isinstance(t, ast.Call) and call_leaf(t) == "isinstance") and not (isinstance(t, ast.Compare) and ("dest" in ast.unparse(t) or (isinstance(t.left, ast.Name) and len(t.ops) == 1 and isinstance(t.ops[0], (ast.Is, ast.IsNot)) and isinstance(t.comparators[0], ast.Constant) and t.comparators[0].value is None)))]
+        other = [ast.unparse(t) for t, p in at if not (isinstance(t, ast.Call) and call_leaf(t) == "isinstance") and not (isinstance(t, ast.Compare) and ("dest" in ast.unparse(t) or (isinstance(t.left, ast.Name) and t.left.id in act_names and len(t.ops) == 1 and isinstance(t.ops[0], (ast.Is, ast.IsNot)) and isinstance(t.comparators[0], ast.Constant) and t.comparators[0].value is None)))]
         if neg_ns and not other:
             good.append(r)
     ok = bool(good)
